@@ -187,6 +187,15 @@ type FileOpts struct {
 }
 
 func RandKey(rng *prng.R) []byte {
+	if rng.Chance(1, 25) {
+		// long key with material repeated from far back (LZF offsets above 256 when compressed)
+		head := Repetitive(rng, rng.Range(270, 900))
+		k := append([]byte{}, head...)
+		k = append(k, rng.Bytes(rng.Range(0, 40))...)
+		s := rng.Intn(len(head) - 40)
+		k = append(k, head[s:s+rng.Range(8, 40)]...)
+		return k
+	}
 	switch rng.Intn(8) {
 	case 0:
 		return []byte(strconv.Itoa(rng.Range(-300, 70000))) // int-encodable key
@@ -229,7 +238,12 @@ func RandMeta(rng *prng.R) *Meta {
 	case 2:
 		return RandModAux(rng)
 	case 3:
-		return &Meta{Kind: "lua", B: []byte(fmt.Sprintf("return redis.call('incr', KEYS[1]) -- %d %s", rng.Intn(1000), RandElem(rng)))}
+		sc := fmt.Sprintf("return redis.call('incr', KEYS[1]) -- %d %s", rng.Intn(1000), RandElem(rng))
+		if rng.Chance(1, 3) { // long script repeating a far-away line
+			line := fmt.Sprintf("local v%d = redis.call('get', KEYS[%d])\n", rng.Intn(100), rng.Range(1, 9))
+			sc = line + string(Repetitive(rng, rng.Range(260, 700))) + "\n" + line + sc
+		}
+		return &Meta{Kind: "lua", B: []byte(sc)}
 	}
 	return &Meta{Kind: "aux", A: RandElem(rng), B: RandElem(rng)}
 }
